@@ -11,8 +11,14 @@ DEFAULT_FUNCS = {
 
 
 class Preempter(object):
-    def __init__(self, sim, prob=0.25, funcs=None, path_part='/pynetdicom2/'):
+    def __init__(self, sim, prob=0.25, funcs=None, path_part='/pynetdicom2/', park_prob=0.0,
+                 park_max=0.2):
+        """park_prob: fraction of the pre-emptions that park the thread for up to park_max
+        virtual seconds (a slow thread inside the function) instead of merely yielding - other
+        threads then run until they block, which lets a second thread reach the same code."""
         self.sim = sim
+        self.park_prob = park_prob
+        self.park_max = park_max
         self.prob = prob
         self.funcs = funcs or DEFAULT_FUNCS
         self.path_part = path_part
@@ -32,7 +38,11 @@ class Preempter(object):
             if sim.in_task() and not sim._aborting:
                 if sim.chance('preempt', self.prob, 'pre'):
                     sim.bump('probe.fine_grain_preemptions')
-                    sim.yield_('preempt')
+                    if self.park_prob and sim.chance('preempt', self.park_prob, 'park'):
+                        sim.bump('probe.fine_grain_parks')
+                        sim.sleep(self.park_max * (1 + sim.choose('preempt', 8, 'parklen')) / 8.0)
+                    else:
+                        sim.yield_('preempt')
         return self._local
 
     def install(self):
